@@ -1,9 +1,16 @@
-import Iox2.Model.Ffi
 import Driver.Util
+/-!
+Component `ffi` (C18) has no Lean-side behavioural model: the reference of the differential run is the
+Rust API executed on the same line by the harness (`harness/src/c18_ffi.rs` prints the outcome of every
+world, `checklib/pC18.py` compares them).  The Lean part of C18 is about the error tables
+(`Iox2/Gen/FfiErrors.lean`, `Iox2/Props/C18.lean`).  This driver only keeps the component registered: it
+answers every line with `-`.  (`Iox2.Model.Ffi` is deliberately not imported: it pulls in the `Lean`
+elaborator for the `n!` literal syntax, which the driver executable does not need.)
+-/
 namespace Driver.FfiD
 open Driver
 
-def stepLine (s : Unit) (_t : List String) : Unit × String := (s, "unimplemented")
+def stepLine (s : Unit) (_t : List String) : Unit × String := (s, "-")
 
 def comp : Comp := { σ := Unit, init := (), step := stepLine }
 end Driver.FfiD
